@@ -584,6 +584,13 @@ pub fn cmd_c05(tier: &str, out: &str) {
         let kinds = crate::tr::encoder_outcomes(p);
         ks.put(&format!("enc|{:?}", kinds), || format!("{{\"cap\":-4,\"p\":{},\"e\":{}}}", jarr(p), jarr2(&kinds)));
     }
+    // allocation failures: with the allocator refusing every request above `limit` bytes the growable-buffer entry
+    // points return a correct result or OutOfMemory (outcome 1 / 3); an abort of the worker process is outcome 9
+    let mut naf = 0u64;
+    for ((kind, l, pat, limit), code) in crate::af::run(tier) {
+        naf += 1;
+        ks.put(&format!("af|{}|{}|{}|{}|{}", kind, l, pat, limit, code), || format!("{{\"cap\":-4,\"af\":[{},{},{},{}],\"p\":[],\"e\":[[-1,{}]]}}", kind, l, pat, limit, code));
+    }
     let _ = std::fs::remove_file(&hb_path);
-    ks.finish("c05", &format!(",\"streams\":{},\"encoder_payloads\":{}", streams, nenc));
+    ks.finish("c05", &format!(",\"streams\":{},\"encoder_payloads\":{},\"alloc_failure_cases\":{}", streams, nenc, naf));
 }
